@@ -95,9 +95,9 @@ type aliasAnalysis struct {
 // summaryOverrides: callees whose result never shares storage with their arguments although a
 // path-insensitive reading suggests otherwise (each confirmed by reading).
 var summaryOverrides = map[string]string{
-	"slices.Clone": "returns a fresh copy",
+	"slices.Clone":      "returns a fresh copy",
 	"util/sparse.Union": "either returns one of the input sets, or a slice that outgrew reuse, or (when it still fits in reuse) slices.Clone(ret): the guard `cap(reuse) >= len(ret)` covers exactly the case where ret still shares reuse's array",
-	"strings.Split": "fresh", "strings.Fields": "fresh", "sort.Strings": "no result",
+	"strings.Split":     "fresh", "strings.Fields": "fresh", "sort.Strings": "no result",
 }
 
 func hasSliceStorage(t types.Type, depth int) bool {
